@@ -108,6 +108,42 @@ func (n *c14sNode) jobs(t *testing.T, refIdx map[string]int) map[string]int {
 	return res
 }
 
+// c14sJob: one job as the clean-up leg hands it to the model (error text mapped to a label of the model's JErr)
+type c14sJob struct {
+	S       int    `json:"s"`
+	R       int    `json:"r"`
+	Retries int    `json:"retries"`
+	Err     string `json:"err"`
+}
+
+var c14sErrLabel = map[string]string{"keeps failing": "generic", "temporarily unavailable": "storage", "receiver did not finish or fail": "incomplete"}
+
+func (n *c14sNode) jobsFull(refIdx map[string]int) []c14sJob {
+	var res []c14sJob
+	for si, s := range c14sSubs {
+		_ = n.store.ReadShelf(context.Background(), "_"+s.name+"_jobs", func(r stoabs.Reader) error {
+			return r.Iterate(func(k stoabs.Key, v []byte) error {
+				ev := struct {
+					Retries int    `json:"retries"`
+					Error   string `json:"error"`
+				}{}
+				_ = json.Unmarshal(v, &ev)
+				lab, ok := c14sErrLabel[ev.Error]
+				if !ok {
+					lab = "none"
+					if ev.Error != "" {
+						lab = "fatal"
+					}
+				}
+				res = append(res, c14sJob{S: si, R: refIdx[fmt.Sprintf("%x", k.Bytes())], Retries: ev.Retries, Err: lab})
+				return nil
+			}, stoabs.BytesKey{})
+		})
+	}
+	sort.Slice(res, func(i, j int) bool { return res[i].S < res[j].S || res[i].S == res[j].S && res[i].R < res[j].R })
+	return res
+}
+
 func c14sFmt(m map[string]int) string {
 	var l []string
 	for k, v := range m {
@@ -132,7 +168,7 @@ func TestVerifC14Start(t *testing.T) {
 	dir := filepath.Join(outDir, "db-start")
 	_ = os.MkdirAll(dir, 0o755)
 	defer os.RemoveAll(dir)
-	var lines []string
+	var lines, cleanOps, cleanImpl []string
 	ptypes := []string{"application/did+json", "application/vc+json", "application/ld+json;type=revocation", "foo/bar"}
 
 	for round := 0; round < rounds; round++ {
@@ -245,9 +281,38 @@ func TestVerifC14Start(t *testing.T) {
 		cleanup := ""
 		if round%2 == 1 {
 			target := c14sSubs[(round/2)%len(c14sSubs)].name
-			prefix := []string{"keeps", "keeps failing", "keeps", "failing"}[rng.Intn(4)]
+			prefix := []string{"keeps", "keeps failing", "keeps", "failing", "k", "temporarily", "keeps failing!"}[rng.Intn(7)]
+			if rng.Intn(6) == 0 {
+				target = []string{"Nats", "vcr", "vdr_", "nats2"}[rng.Intn(4)] // no subscriber of that name
+			}
+			full := n1.jobsFull(refIdx)
+			var order []int
+			for _, sub := range n1.network.Subscribers() {
+				for si, s := range c14sSubs {
+					if s.name == sub.Name() {
+						order = append(order, si)
+					}
+				}
+			}
 			cerr := n1.network.CleanupSubscriberEvents(target, prefix)
 			afterCleanup := n1.jobs(t, refIdx)
+			{
+				names := []string{}
+				for _, s := range c14sSubs {
+					names = append(names, s.name)
+				}
+				texts := map[string]string{}
+				for k, v := range c14sErrLabel {
+					texts[v] = k
+				}
+				opj, _ := json.Marshal(map[string]interface{}{"op": "o14clean", "names": names, "order": order, "target": target, "prefix": prefix, "errText": texts, "jobs": full})
+				cleanOps = append(cleanOps, string(opj))
+				var rem []string
+				for _, j := range n1.jobsFull(refIdx) {
+					rem = append(rem, fmt.Sprintf("%d.%d:%d:%s", j.S, j.R, j.Retries, j.Err))
+				}
+				cleanImpl = append(cleanImpl, fmt.Sprintf("clean|%v|%s", cerr == nil, strings.Join(rem, ",")))
+			}
 			var removed []string
 			for k := range before {
 				if _, ok := afterCleanup[k]; !ok {
@@ -292,4 +357,7 @@ func TestVerifC14Start(t *testing.T) {
 	if err := os.WriteFile(filepath.Join(outDir, "start.out"), []byte(strings.Join(lines, "\n")+"\n"), 0o644); err != nil {
 		t.Fatal(err)
 	}
+	// the clean-up calls once more, for the model (NutsModel.C14.Api.cleanup): op + the jobs left afterwards
+	_ = os.WriteFile(filepath.Join(outDir, "ops.jsonl"), []byte(strings.Join(cleanOps, "\n")+"\n"), 0o644)
+	_ = os.WriteFile(filepath.Join(outDir, "impl.out"), []byte(strings.Join(cleanImpl, "\n")+"\n"), 0o644)
 }
